@@ -864,8 +864,9 @@ class ContentElement(TTMLElement):
           continue
 
         if self.time_container.is_seq() and self.seq_end is None:
+          # the child is skipped, the loop goes on: the nested styles of a region that follow are not timed and are still read
           LOGGER.warning("Children of a sequential time container that follow a child with indefinite end never begin")
-          break
+          continue
 
         if issubclass(self.ttml_class, SetElement):
           # <set> has no content children, and neither xml:space nor xml:lang for them to inherit
